@@ -185,6 +185,9 @@ pub fn run(ctx: &Ctx, rec: &mut Rec) {
     let gs = gadgets();
     let mut zrng = rng_for(ctx.seed, P, 999, 0);
     let zoo = elements_for_gadgets(ctx, &mut zrng, ctx.scale(5, 50));
+    // gadgets over constant-mode operands have no variable input: the constant is a circuit
+    // parameter (an invalid constant encoding is simply not a circuit), nothing to compare
+    let gs: Vec<Gadget> = gs.into_iter().filter(|g| !g.name.contains("(constant")).collect();
     for g in &gs {
         rec.declare_form(&format!("shape: {}", g.name));
     }
@@ -192,8 +195,8 @@ pub fn run(ctx: &Ctx, rec: &mut Rec) {
     let mut work: Vec<(usize, Vec<(Inp, String)>)> = Vec::new();
     for (gi, g) in gs.iter().enumerate() {
         let budget = match g.kind {
-            "EBits" => ctx.scale(20, 200),
-            _ => ctx.scale(40, 600),
+            "EBits" => ctx.scale(30, 200),
+            _ => ctx.scale(80, 600),
         };
         if g.kind == "EE" && g.name.ends_with("Element") {
             // the second operand is a circuit *constant*: the matrices legitimately contain it, so
@@ -273,9 +276,16 @@ pub fn run(ctx: &Ctx, rec: &mut Rec) {
             rec.form("public input: instance assignment");
             rec.eval(&("instance", e.key(), coords(&e.l).2.to_bytes_le()), false);
             let l = e.l;
+            let via_affine = i % 2 == 1;
+            rec.count(if via_affine { "public inputs allocated from AffinePoint" } else { "public inputs allocated from Element" }, 1);
             let res = guarded(|| -> Result<(Vec<Fq>, Vec<Fq>, Fq), String> {
                 let cs = new_cs(false);
-                let _v: ElementVar = ElementVar::new_input(cs.clone(), || Ok(l)).map_err(|e| format!("{e:?}"))?;
+                let _v: ElementVar = if via_affine {
+                    let a: Af = l.into();
+                    ElementVar::new_input(cs.clone(), || Ok(a)).map_err(|e| format!("{e:?}"))?
+                } else {
+                    ElementVar::new_input(cs.clone(), || Ok(l)).map_err(|e| format!("{e:?}"))?
+                };
                 let inst = cs.borrow().unwrap().instance_assignment.clone();
                 Ok((inst, l.to_field_elements().unwrap(), l.vartime_compress_to_field()))
             });
@@ -293,13 +303,13 @@ pub fn run(ctx: &Ctx, rec: &mut Rec) {
     });
 
     // ---- (3) the seven pinned circuits: shapes across inputs / modes, keys, proofs
-    let per = ctx.scale(6, 40);
+    let per = ctx.scale(10, 40);
     let instances = pinned_instances(ctx, &zoo, &mut zrng, per);
     let names = ["discrete_log", "compression", "decompression", "elligator", "public_element_input", "negation", "add_assign_add"];
     for nm in names {
         rec.declare_form(&format!("pinned: {nm}"));
     }
-    let n_proofs = ctx.scale(2, 40);
+    let n_proofs = ctx.scale(5, 40);
     par(rec, |w, n, rec| {
         let mut rng = rng_for(ctx.seed, P, w, 3);
         for (ci, nm) in names.iter().enumerate() {
